@@ -143,6 +143,19 @@ def curve_clause(cl, rng, n, replay):
                 cl.fail("hvsrpy.hvsr_diffuse_field.HvsrDiffuseField.mean_curve_peak", "diffuse-field mean curve peak", signature="diffuse:peak",
                         frequency=f, amplitude=a, range=r, required=want)
                 return
+            # the range asked for is the range searched, whatever range the object's own peak was last searched in: the full range after a bounded update
+            d.update_peaks_bounded(search_range_in_hz=r)
+            full = spec_peak(f, a, (None, None))
+            for call in (lambda: d.mean_curve_peak(), lambda: d.mean_curve_peak(search_range_in_hz=(None, None))):
+                try:
+                    g = call()
+                    ok = full is not None and g[0] == full[0] and g[1] == full[1]
+                except ValueError:
+                    ok = full is None
+                if not ok:
+                    cl.fail("hvsrpy.hvsr_diffuse_field.HvsrDiffuseField.mean_curve_peak", f"full-range query after update_peaks_bounded({r}) does not search the full range",
+                            signature="diffuse:peak-after-update", frequency=f, amplitude=a, range=r, required=full)
+                    return
 
 
 def _check_traditional(cl, h, f, A, r, fn, extra):
